@@ -33,7 +33,8 @@ RULE = (
     "process per FLOW_RECORD_IGNORE value (unset, '_generated', '_source,_generated', a data field, empty) running a script of "
     "explicit set_ignored_fields_for_comparison calls and (nested, failing) scopes incl. explicitly empty ones: a dictionary model "
     "of the configuration in force (environment default until the first explicit call, explicit = exactly what was given, restored "
-    "after a scope) decides every probe; 'classcache' = equal descriptors re-created (directly / from a stream / as grouped members) "
+    "after a scope) decides every probe; 'nametwin' = descriptors with identical fields whose names differ only in '/' versus '_' (plus clones and same-name-other-fields descriptors) created before and after the compared records: different names => unequal, hash / reported descriptor name / observation of untouched records stable; 'scope2' = scopes ended through a suspended generator (close / exhaust / throw / drop), recursion, and an explicit set inside a scope; every scope and set call goes through one of the two public entry points flow.record.X / flow.record.base.X; " 
+    "'classcache' = equal descriptors re-created (directly / from a stream / as grouped members) "
     "after the lru_cache of generated record classes overflowed; 'coincident' = two different descriptors whose identifiers coincide by construction; 'ipfamily' = addresses of "
     "different family / scope with the same integer; 'scope' = the ignore configuration installed by "
     "set_ignored_fields_for_comparison or the context manager (list / set / tuple / frozenset / dict / generator; nested scopes; an "
@@ -109,6 +110,15 @@ def teardown(ctx):
 
 def generate(ctx):
     idx = 0
+    for rep in range(ctx.scale(24, 300)):
+        if ctx.mine(idx):
+            yield {"k": "nametwin", "s": subseed("c12", ctx.seed, "nametwin", rep)}
+        idx += 1
+    for variant in ("generator", "recursive", "set-inside"):
+        for rep in range(ctx.scale(16, 160)):
+            if ctx.mine(idx):
+                yield {"k": "scope2", "variant": variant, "s": subseed("c12", ctx.seed, "scope2", variant, rep)}
+            idx += 1
     for rep in range(ctx.scale(1, 2)):
         if ctx.mine(idx + 3):  # one shard pays the ~1-2 s of overflowing the record-class cache
             yield {"k": "classcache", "s": subseed("c12", ctx.seed, "classcache", rep)}
@@ -366,6 +376,19 @@ def as_container(names, kind):
     return (n for n in names)
 
 
+def entry(ctx, what, rng):
+    """one of the public entry points: the package-level name (flow.record.X) or the defining module's (flow.record.base.X)"""
+    import flow.record
+    import flow.record.base as base
+
+    mod, label = (flow.record, "flow.record") if rng.random() < 0.6 else (base, "flow.record.base")
+    fn = getattr(mod, what, None)
+    if fn is None:
+        fn, label = getattr(base, what), "flow.record.base"
+    ctx.event("entry:%s.%s" % (label, what))
+    return fn
+
+
 def read_config(ctx):
     import flow.record.base as base
 
@@ -380,8 +403,9 @@ class Config:
     """Installs an ignore configuration for the duration of a `with` block (one of the two public ways), runs the scope
     monitor on the way out and always restores what was there before."""
 
-    def __init__(self, ctx, names, how, container, inject=False):
+    def __init__(self, ctx, names, how, container, inject=False, rng=None):
         self.ctx, self.names, self.how, self.container, self.inject = ctx, set(names), how, container, inject
+        self.rng = rng or random.Random(len(self.names) * 7 + len(container))
 
     def run(self, body):
         import flow.record.base as base
@@ -389,7 +413,7 @@ class Config:
         ctx = self.ctx
         before = read_config(ctx)
         if self.how == "global":
-            base.set_ignored_fields_for_comparison(as_container(self.names, self.container))
+            entry(ctx, "set_ignored_fields_for_comparison", self.rng)(as_container(self.names, self.container))
             ctx.event("config_installed:global")
             try:
                 self.verify_installed()
@@ -399,7 +423,7 @@ class Config:
             return
         ctx.event("config_installed:scope" + ("+exception" if self.inject else ""))
         try:
-            with base.ignore_fields_for_comparison(as_container(self.names, self.container)):
+            with entry(ctx, "ignore_fields_for_comparison", self.rng)(as_container(self.names, self.container)):
                 self.verify_installed()
                 body()
                 if self.inject:
@@ -587,7 +611,7 @@ def run_under_configs(ctx, rng, configs, body):
                 body(label, set(names))
                 continue
         how = "global" if rng.random() < 0.4 else "scope"
-        Config(ctx, names, how, rng.choice(CONTAINERS), inject=(how == "scope" and rng.random() < 0.5)).run(lambda: body(label, set(names)))
+        Config(ctx, names, how, rng.choice(CONTAINERS), inject=(how == "scope" and rng.random() < 0.5), rng=rng).run(lambda: body(label, set(names)))
         ctx.cell("config", label, how)
 
 
@@ -898,7 +922,7 @@ def run_dictorder(ctx, case):
 def _mut_descs():
     from flow.record import RecordDescriptor
 
-    m = RecordDescriptor("c12/mut_member", [("string", "s"), ("varint", "n"), ("string[]", "tags"), ("digest", "d"), ("uint16[]", "ports")])
+    m = RecordDescriptor("c12/mut_member", [("string", "s"), ("varint", "n"), ("string[]", "tags"), ("digest", "d"), ("uint16[]", "ports"), ("command", "c")])
     o = RecordDescriptor("c12/mut_other", [("uint16", "p")])
     h = RecordDescriptor("c12/mut_holder", [("record", "inner"), ("record[]", "inners"), ("string", "hs")])
     return m, o, h
@@ -906,7 +930,10 @@ def _mut_descs():
 
 def _mut_member(ms):
     m, _, _ = _mut_descs()
-    return m(s=ms["s"], n=ms["n"], tags=list(ms["tags"]), d=(ms["md5"], None, None) if ms["md5"] else None, ports=list(ms["ports"]), _generated=STAMP)
+    from flow.record.fieldtypes import command as fcommand
+
+    dg = (ms["md5"], ms.get("sha1"), None) if (ms["md5"] or ms.get("sha1")) else None
+    return m(s=ms["s"], n=ms["n"], tags=list(ms["tags"]), d=dg, ports=list(ms["ports"]), c=fcommand.from_posix(" ".join(["/bin/tool"] + ms["args"])), _generated=STAMP)
 
 
 def mut_build(shape, st):
@@ -928,7 +955,8 @@ def mut_member_ref(shape, x):
 def _mut_state(rng):
     def ms():
         return {"s": gen._rand_text(rng), "n": rng.randint(-5, 10**6), "tags": [gen._rand_text(rng, 3) for _ in range(rng.randint(0, 3))],
-                "md5": gen._hex(rng, 16) if rng.random() < 0.5 else None, "ports": [rng.randrange(65536) for _ in range(rng.randint(0, 2))]}
+                "md5": gen._hex(rng, 16) if rng.random() < 0.6 else None, "sha1": gen._hex(rng, 20) if rng.random() < 0.4 else None,
+                "ports": [rng.randrange(65536) for _ in range(rng.randint(0, 3))], "args": ["a%d" % rng.randrange(100) for _ in range(rng.randint(0, 2))]}
 
     return {"m": ms(), "p": rng.randrange(65535), "hs": gen._rand_text(rng), "extra": [ms() for _ in range(rng.randint(0, 2))]}
 
@@ -939,7 +967,13 @@ def mut_apply(shape, x, st, rng):
 
     new = copy.deepcopy(st)
     m = mut_member_ref(shape, x)
-    kinds = ["member_assign_s", "member_assign_n", "list_append", "list_extend", "digest_attr", "member_assign_list"]
+    kinds = ["member_assign_s", "member_assign_n", "list_append", "list_extend", "digest_attr", "member_assign_list", "digest_sha1", "cmd_args_append", "digest_same"]
+    if st["m"]["md5"] or st["m"]["sha1"]:
+        kinds += ["digest_clear"] * 3
+    if st["m"]["tags"]:
+        kinds += ["list_pop", "list_clear"]
+    if len(set(st["m"]["ports"])) > 1 and st["m"]["ports"] != st["m"]["ports"][::-1]:
+        kinds += ["list_reverse"] * 2
     if shape == "grouped":
         kinds += ["view_assign_s", "view_assign_n", "view_assign_list", "other_member_assign", "view_assign_other"] * 2
     if shape == "holder":
@@ -968,6 +1002,30 @@ def mut_apply(shape, x, st, rng):
             v = gen._hex(rng, 16)
         new["m"]["md5"] = v
         m.d.md5 = v
+    elif k == "digest_sha1":
+        v = gen._hex(rng, 20)
+        new["m"]["sha1"] = v
+        m.d.sha1 = v
+    elif k == "digest_clear":
+        which = rng.choice([w for w in ("md5", "sha1") if st["m"][w]])
+        new["m"][which] = None
+        setattr(m.d, which, None)
+    elif k == "digest_same":
+        which = rng.choice(["md5", "sha1"])
+        setattr(m.d, which, st["m"][which])  # the value it already holds (possibly None): the state does not change
+    elif k == "list_pop":
+        new["m"]["tags"].pop()
+        m.tags.pop()
+    elif k == "list_clear":
+        new["m"]["tags"] = []
+        m.tags.clear()
+    elif k == "list_reverse":
+        new["m"]["ports"].reverse()
+        m.ports.reverse()
+    elif k == "cmd_args_append":
+        arg = "x%d" % rng.randrange(100)
+        new["m"]["args"].append(arg)
+        m.c.args.append(arg)
     elif k in ("other_member_assign", "view_assign_other"):
         new["p"] = (st["p"] + 1) % 65536
         setattr(x if k.startswith("view") else x.records[1], "p", new["p"])
@@ -975,7 +1033,7 @@ def mut_apply(shape, x, st, rng):
         new["hs"] = st["hs"] + "~"
         x.hs = new["hs"]
     elif k == "holder_list_append":
-        ms = dict(st["m"], s=st["m"]["s"] + "+", tags=list(st["m"]["tags"]), ports=list(st["m"]["ports"]))
+        ms = dict(st["m"], s=st["m"]["s"] + "+", tags=list(st["m"]["tags"]), ports=list(st["m"]["ports"]), args=list(st["m"]["args"]))
         new["extra"].append(ms)
         x.inners.append(_mut_member(ms))
     elif k == "holder_elem_assign":
@@ -1004,7 +1062,8 @@ def run_mutate(ctx, case):
         compare(ctx, x, y_old, "equal", dict(info0, pair="before modification %d" % rnd, a=describe(x), b=describe(y_old), config="none"))
         k, st2 = mut_apply(shape, x, st, rng)
         y_new = mut_build(shape, st2)
-        if observe.obs(x) != observe.obs(y_new) or observe.obs(x) == observe.obs(y_old):
+        unchanged = st2 == st
+        if observe.obs(x) != observe.obs(y_new) or ((observe.obs(x) == observe.obs(y_old)) != unchanged):
             ctx.event("mutate_model_selfcheck_failed")
             ctx.note("mutate_model_selfcheck_example", [k, observe.first_diff(observe.obs(x), observe.obs(y_new))])
             return
@@ -1014,8 +1073,9 @@ def run_mutate(ctx, case):
 
         def both(label):
             compare(ctx, x, y_new, "equal", dict(info, pair="modified record vs rebuilt copy of the new state", b=describe(y_new), config=label, key=KEY_STALE_HASH))
-            compare(ctx, x, y_old, "unequal", dict(info, pair="modified record vs rebuilt copy of the old state", b=describe(y_old), config=label,
-                                                   because="the record was modified (%s) after the copy's state" % k))
+            compare(ctx, x, y_old, "equal" if unchanged else "unequal",
+                    dict(info, pair="modified record vs rebuilt copy of the old state", b=describe(y_old), config=label, key=KEY_STALE_HASH,
+                         because="the record was modified (%s) after the copy's state" % k))
             ctx.event("mutate_pairs_checked")
 
         both("none")
@@ -1274,7 +1334,7 @@ def run_scope(ctx, case):
 
     try:
         try:
-            with base.ignore_fields_for_comparison(as_container(outer_names, cont)):
+            with entry(ctx, "ignore_fields_for_comparison", rng)(as_container(outer_names, cont)):
                 inside = read_config(ctx)
                 if inside is not None and inside != outer_names:
                     ctx.violation(None, "ignored-fields configuration inside the scope is not the one given", detail=dict(info, observed=sorted(inside)))
@@ -1282,7 +1342,7 @@ def run_scope(ctx, case):
                 if nested:
                     inner_names = {"s"}
                     try:
-                        with base.ignore_fields_for_comparison(as_container(inner_names, rng.choice(CONTAINERS))):
+                        with entry(ctx, "ignore_fields_for_comparison", rng)(as_container(inner_names, rng.choice(CONTAINERS))):
                             probe(inner_names, "inside inner scope")
                             if inject:
                                 raise _Boom()
@@ -1313,6 +1373,191 @@ def run_scope(ctx, case):
     ctx.sample({"case": case, "outer": sorted(outer_names)}, kind="scope")
 
 
+def run_scope2(ctx, case):
+    """Scopes that do not end by falling off the end of a with block in the same frame: a generator suspended inside its scope
+    (advanced, then closed / exhausted / thrown into), recursion entering the scope again at every level (each level raising or
+    not), and the set function called inside a scope.  After every exit the configuration in force is the one before the entry,
+    observed as state and by behaviour."""
+    import flow.record.base as base
+    from flow.record import RecordDescriptor
+
+    rng = random.Random(case["s"])
+    d = RecordDescriptor("c12/scope2", [("string", "s"), ("varint", "n")])
+    a, b, c = d(s="x", n=1, _generated=STAMP), d(s="x", n=2, _generated=STAMP), d(s="y", n=1, _generated=STAMP)
+    info = {"case": case, "variant": case["variant"]}
+    before = read_config(ctx)
+    ctx.ev()
+
+    def probe(ignored, where):
+        compare(ctx, a, b, "equal" if "n" in ignored else "unequal", dict(info, where=where, ignored=sorted(ignored), pair="differ in n", a=describe(a), b=describe(b),
+                                                                          because="field 'n' differs and is not ignored"))
+        compare(ctx, a, c, "equal" if "s" in ignored else "unequal", dict(info, where=where, ignored=sorted(ignored), pair="differ in s", a=describe(a), b=describe(c),
+                                                                          because="field 's' differs and is not ignored"))
+
+    def expect_config(want, where):
+        ctx.event("scope_restore_checked")
+        got = read_config(ctx)
+        if got is not None and got != want:
+            ctx.violation(None, "ignored-fields configuration is not the one in force before the scope (%s)" % where, detail=dict(info, expected=sorted(want), observed=sorted(got)))
+            base.set_ignored_fields_for_comparison(want)
+            return False
+        probe(want, where)
+        return True
+
+    outer = rng.choice([set(), {"n"}, {"s"}, {"_generated"}])
+    try:
+        base.set_ignored_fields_for_comparison(as_container(outer, rng.choice(CONTAINERS)))
+        variant = case["variant"]
+        if variant == "generator":
+            def scoped(names):
+                with entry(ctx, "ignore_fields_for_comparison", rng)(as_container(names, rng.choice(CONTAINERS))):
+                    yield "inside"
+                    yield "still inside"
+
+            how = rng.choice(["close", "exhaust", "throw", "drop"])
+            names = rng.choice([{"n"}, {"s"}, {"n", "s"}, set()])
+            g = scoped(names)
+            next(g)
+            inside = read_config(ctx)
+            if inside is not None and inside != names:
+                ctx.violation(None, "ignored-fields configuration inside the scope is not the one given", detail=dict(info, given=sorted(names), observed=sorted(inside)))
+            probe(names, "while a generator is suspended inside its scope")
+            if how == "close":
+                g.close()
+            elif how == "exhaust":
+                for _ in g:
+                    pass
+            elif how == "throw":
+                try:
+                    g.throw(_Boom())
+                except _Boom:
+                    pass
+            else:
+                del g
+                import gc
+
+                gc.collect()
+            ctx.cell("scope2", "generator", how)
+            expect_config(outer, "after a generator suspended inside its scope was ended by " + how)
+        elif variant == "recursive":
+            depth = rng.randint(2, 4)
+            plan = [(rng.choice([{"n"}, {"s"}, set(), {"n", "s"}]), rng.random() < 0.5) for _ in range(depth)]
+
+            def level(i, outside):
+                if i == len(plan):
+                    return
+                names, boom = plan[i]
+                try:
+                    with entry(ctx, "ignore_fields_for_comparison", rng)(as_container(names, rng.choice(CONTAINERS))):
+                        probe(names, "inside level %d" % i)
+                        level(i + 1, names)
+                        expect_config(names, "back in level %d after level %d ended" % (i, i + 1))
+                        if boom:
+                            raise _Boom()
+                except _Boom:
+                    pass
+                expect_config(outside, "after level %d ended%s" % (i, " with an error" if boom else ""))
+
+            level(0, outer)
+            ctx.cell("scope2", "recursive", depth)
+        else:  # the set function called inside a scope: the scope still restores what was in force before it
+            names = rng.choice([{"n"}, {"s"}])
+            boom = rng.random() < 0.5
+            try:
+                with entry(ctx, "ignore_fields_for_comparison", rng)(as_container(names, rng.choice(CONTAINERS))):
+                    probe(names, "inside")
+                    entry(ctx, "set_ignored_fields_for_comparison", rng)(as_container({"_generated"}, rng.choice(CONTAINERS)))
+                    probe({"_generated"}, "inside, after an explicit set")
+                    if boom:
+                        raise _Boom()
+            except _Boom:
+                pass
+            ctx.cell("scope2", "set-inside", "exception" if boom else "normal")
+            expect_config(outer, "after a scope in which the configuration was set explicitly")
+    finally:
+        base.set_ignored_fields_for_comparison(before if before is not None else ctx.state["original_config"])
+    ctx.event("scope2_cases")
+    ctx.nontrivial("scope2", case["variant"], case["s"])
+
+
+# ---- descriptor name twins: equality / hash stability across creation of other descriptors ---------------------------
+def run_nametwin(ctx, case):
+    """Descriptors with identical fields whose names differ only in '/' versus '_' (demo/proc_info, demo/proc/info), created
+    before and after the records that are compared; plus clones and same-name-different-fields descriptors.  Records of
+    differently named descriptors are unequal; hash(rec), the descriptor name a record reports and its whole observation are
+    stable across the creation of any other descriptor."""
+    from flow.record import GroupedRecord, RecordDescriptor
+
+    rng = random.Random(case["s"])
+    tag = gen.rand_ident(rng) + str(rng.randrange(10**6))
+    stem = "c12tw/" + tag
+    names = [stem + "/proc_info", stem + "/proc/info", stem + "_proc/info", stem + "/proc_info_x"[:-2]]
+    names = list(dict.fromkeys(names))
+    rng.shuffle(names)
+    fields = [("string", "s"), ("varint", "n")] + ([("string[]", "tags")] if rng.random() < 0.5 else [])
+    vals = {"s": "v", "n": 7, "_generated": STAMP, "_source": "src"}
+    info0 = {"case": case, "names": names, "fields": fields}
+
+    def state(r):
+        return [hash(r), str(r._desc.name), observe.obs(r), repr(r)]
+
+    live = []  # [descriptor name it was built from, record, state when built]
+
+    def build(desc):
+        r = desc(**vals)
+        live.append([desc.name, r, state(r)])
+        if observe.obs(r)[1] != desc.name:
+            ctx.violation(None, "a record reports another descriptor name than the descriptor it was built from", detail=dict(info0, built_from=desc.name, reports=observe.obs(r)[1]))
+        return r
+
+    def recheck(after):
+        for built_from, r, st in live:
+            ctx.event("nametwin_stability_checked")
+            now = state(r)
+            if now != st:
+                what = [n for n, x, y in zip(("hash", "descriptor name", "observation", "repr"), now, st) if x != y]
+                ctx.violation("record-changes-when-another-descriptor-is-created", "an untouched record changed (%s) after %s" % (", ".join(what), after),
+                              detail=dict(info0, built_from=built_from, before=[st[0], st[1]], after=[now[0], now[1]]))
+                st[:] = now
+
+    descs = {}
+    first = names[0]
+    descs[first] = RecordDescriptor(first, fields)
+    a = build(descs[first])
+    g = GroupedRecord(stem + "/group", [build(descs[first])])
+    live.append([first, g, state(g)])
+    for nm in names[1:]:
+        descs[nm] = RecordDescriptor(nm, fields)
+        recheck("a descriptor named %r with the same fields was created" % nm)
+        build(descs[nm])
+    RecordDescriptor(first, list(fields))
+    recheck("an equal descriptor (same name, same fields) was created again")
+    RecordDescriptor(first, fields + [("string", "extra")])
+    RecordDescriptor(names[-1], [("varint", "other")])
+    recheck("same-name descriptors with other fields were created")
+    later = build(descs[first])  # the first descriptor object is used again after all the others exist
+    recheck("the first descriptor built another record")
+    # pairwise: same name => equal, other name => unequal
+    recs = [(n, r) for n, r, _ in live if not isinstance(r, GroupedRecord)]
+    for i in range(len(recs)):
+        for j in range(i + 1, len(recs)):
+            (n1, r1), (n2, r2) = recs[i], recs[j]
+            same = n1 == n2
+            compare(ctx, r1, r2, "equal" if same else "unequal",
+                    dict(info0, pair="name twins" if not same else "same descriptor, built before / after the twins", a=describe(r1), b=describe(r2), config="none",
+                         because=None if same else "the descriptor names %r and %r differ" % (n1, n2), key=None if same else "descriptor-name-twins-share-record-class"))
+            ctx.cell("pair", "nametwin", "same" if same else "twin")
+    distinct = len({r for _, r in recs})
+    ctx.event("nametwin_set_checked")
+    if distinct != len(names):
+        ctx.violation("descriptor-name-twins-share-record-class", "a set of records of %d differently named descriptors holds %d elements" % (len(names), distinct), detail=info0)
+    g2 = GroupedRecord(stem + "/group", [descs[names[1]](**vals)])
+    compare(ctx, g, g2, "unequal", dict(info0, pair="grouped records whose members are name twins", a=describe(g), b=describe(g2), config="none",
+                                       because="the member descriptors' names differ", key="descriptor-name-twins-share-record-class"))
+    ctx.nontrivial("nametwin", case["s"])
+    ctx.sample({"case": case, "names": names}, kind="nametwin")
+
+
 def execute(ctx, case):
     k = case["k"]
     if k in ("type", "nested"):
@@ -1327,6 +1572,10 @@ def execute(ctx, case):
         run_dictorder(ctx, case)
     elif k == "mutate":
         run_mutate(ctx, case)
+    elif k == "scope2":
+        run_scope2(ctx, case)
+    elif k == "nametwin":
+        run_nametwin(ctx, case)
     elif k == "envignore":
         run_envignore(ctx, case)
     elif k == "classcache":
@@ -1360,6 +1609,10 @@ def finish(ctx):
     ctx.require(ev.get("scope_restore_checked", 0) > 0, "the scope-restoration monitor never ran")
     ctx.require(ev.get("config_installed:scope+exception", 0) > 0, "no scope ended with an injected exception")
     ctx.require(ev.get("reflexive_checked", 0) > 0, "reflexivity was never checked")
+    ctx.require(ev.get("nametwin_stability_checked", 0) > 0, "the descriptor name-twin stability monitor never ran")
+    ctx.require(ev.get("scope2_cases", 0) > 0, "generator-suspended / recursive scopes were never exercised")
+    ctx.require(ev.get("entry:flow.record.ignore_fields_for_comparison", 0) > 0 and ev.get("entry:flow.record.base.ignore_fields_for_comparison", 0) > 0,
+                "the scope was not driven through both public entry points (flow.record and flow.record.base)")
     ctx.require(ev.get("mutate_pairs_checked", 0) > 0, "hash / == coherence across mutation was never checked")
     ctx.require(ev.get("mutate_model_selfcheck_failed", 0) == 0, "the mutation model disagreed with the observed record (%d cases)" % ev.get("mutate_model_selfcheck_failed", 0))
     if ctx.state.get("classcache_ran"):
